@@ -478,3 +478,339 @@ Proof.
   intros s. cbn [step]. destruct (negb (conn s) && started s && negb (closing s)); [|auto]. cbv zeta.
   match goal with |- context [if ?c then _ else _] => destruct c end; auto.
 Qed.
+
+(* ------------------------------------------------------------------ *)
+(** * S0: the single-token, handler-atomic schedule class and its stronger invariant *)
+
+Lemma cl_eq (a b : cl) :
+  started a = started b -> closing a = closing b -> pumpStuck a = pumpStuck b -> paused a = paused b ->
+  rdy a = rdy b -> q a = q b -> cap a = cap b -> pend a = pend b -> reqC a = reqC b -> readyC a = readyC b ->
+  tmo a = tmo b -> tok a = tok b -> now a = now b -> timeout a = timeout b -> conn a = conn b ->
+  failw a = failw b -> cbq a = cbq b -> concC a = concC b -> handlerOn a = handlerOn b ->
+  stopSig a = stopSig b -> tr a = tr b -> a = b.
+Proof. destruct a, b; cbn; intros; subst; reflexivity. Qed.
+
+Ltac rec_eq := apply cl_eq; cbn; reflexivity.
+
+Definition tm_after (s : cl) : bool := match tmo s with TOff => false | _ => tok s end.
+
+Lemma pump_tail_eq s h t :
+  pumpStuck s = false -> paused s = false -> rdy s = true -> q s = h :: t -> pend s = 0 -> h <> 0 ->
+  readyC s = 0 -> (tmo s = TOff -> tok s = true) ->
+  pump_tail s =
+    if conn s && negb (failw s) then
+      set_timer (set_rdy (emit (set_pend s h) (EWr h (now s))) false) (TShort (now s + timeout s)) (tm_after s)
+    else
+      set_timer (set_rdy (set_concC (emit (set_readyC (set_pend (set_q (emit (set_pend s h) (EWr h (now s))) t) 0) 1)
+                                          (EConc h K_WRITE (now s))) (concC s ++ [(h, K_WRITE)])) false)
+                (TShort (now s + timeout s)) (tm_after s).
+Proof.
+  intros H1 H2 H3 H4 H5 H6 H7 H8.
+  unfold pump_tail, dispatch, conclude, complete, stop_drain, tm_after. rewrite H1, H2, H3, H4, H5. cbn.
+  apply Z.eqb_neq in H6. rewrite H6. cbn. rewrite H4. cbn.
+  destruct (conn s && negb (failw s)) eqn:E; cbn.
+  - rewrite H1. cbn. destruct (tmo s) eqn:Et; cbn.
+    + rewrite (H8 eq_refl). cbn. rewrite H1. rec_eq.
+    + rewrite H1. rec_eq.
+    + rewrite H1. rec_eq.
+  - rewrite Z.eqb_refl, H7. cbn. rewrite H1. cbn. destruct (tmo s) eqn:Et; cbn.
+    + rewrite (H8 eq_refl). cbn. rewrite H1. rec_eq.
+    + rewrite H1. rec_eq.
+    + rewrite H1. rec_eq.
+Qed.
+
+Lemma pump_tail_idle s :
+  pumpStuck s = false -> (paused s = true \/ rdy s = false \/ q s = []) -> pump_tail s = s.
+Proof.
+  intros H1 H. unfold pump_tail. rewrite H1. destruct (paused s); [reflexivity|].
+  destruct H as [H|[H|H]]; [discriminate|rewrite H; reflexivity|rewrite H; destruct (rdy s); reflexivity].
+Qed.
+
+Definition own (e : ev) : Prop :=
+  match e with ECb c r _ => c = r | ENoCb _ _ => False | EPanic => False | _ => True end.
+
+Definition pendl (s : cl) : list Z := if pend s =? 0 then [] else [pend s].
+
+Record SI (s : cl) : Prop := {
+  si_stopped : started s = false -> pend s = 0 /\ q s = [] /\ closing s = false;
+  si_rdy : started s = true -> (1 <= readyC s \/ rdy s = true) -> pend s = 0;
+  si_ns : pumpStuck s = false;
+  si_timer : started s = true -> tmo s = TOff -> tok s = true;
+  si_pos : 0 <= reqC s /\ 0 <= readyC s;
+  si_cb : started s = true -> closing s = false -> cbq s = map fst (concC s) ++ q s;
+  si_cb0 : started s = false -> stopSig s = false -> cbq s = [] /\ handlerOn s = false;
+  si_sig : closing s = true -> stopSig s = true;
+  si_sig2 : stopSig s = true -> closing s = true \/ started s = false;
+  si_own : Forall own (tr s);
+  si_j5 : wrs (tr s) = conc (tr s) ++ pendl s }.
+
+Lemma SI_init c t : SI (init c t).
+Proof.
+  constructor; cbn; intros; try discriminate; auto; try lia.
+Qed.
+
+Ltac fin := cbn in *; intros; subst; try tauto; try lia; try congruence; auto.
+
+Lemma remove_last_app {A} (l : list A) x : remove_last (l ++ [x]) = l.
+Proof. induction l as [|a l IH]; [reflexivity|]. change ((a :: l) ++ [x]) with (a :: (l ++ [x])). cbn [remove_last]. destruct (l ++ [x]) eqn:E; [destruct l; discriminate|]. rewrite <- IH. reflexivity. Qed.
+
+Ltac own_cons1 := constructor; [exact I|assumption].
+Ltac closer Sf :=
+  first [ own_cons1
+        | (rewrite Sf by assumption; cbn; reflexivity)
+        | (match goal with |- context [1 =? 0] => change (1 =? 0) with false; cbn; assumption end)
+        | idtac ].
+
+Lemma step_SI_ext1 l s : wf_lab l -> G1 s -> G2 s -> SI s -> ok_at l s = true ->
+  match l with Send _ _ | Expire | Tick _ | NetFail _ | Stop | Start | Drop | Reconn => SI (step l s) | _ => True end.
+Proof.
+  intros Hw [J1' Jp J4'] [Jc Jcl Js] S Hok.
+  pose proof S as [Sa Sb Sc Sd Se Sf Sg Sh Si Sj Sk].
+  unfold ok_at in Hok. apply andb_true_iff in Hok as [HT Hok]. apply Z.leb_le in HT.
+  destruct l; try exact I; cbn [is_ext] in Hok;
+    apply andb_true_iff in Hok as [Hok Hcc]; apply andb_true_iff in Hok as [Hcl Hsg];
+    apply negb_true_iff in Hcl; apply negb_true_iff in Hsg;
+    destruct (concC s) as [|cc0 ccs] eqn:Ecc; try discriminate; clear Hcc; cbn [map fst app] in Sf.
+  - (* Send *)
+    cbn [step]. cbv zeta.
+    change (closing (set_cbq s (cbq s ++ [r]))) with (closing s). rewrite Hcl. cbn [negb andb].
+    set (s1 := set_cbq s (cbq s ++ [r])).
+    destruct (started s1 && true && valid && negb (q_is_full s1)) eqn:E.
+    + assert (Est : started s = true) by (subst s1; cbn in E; destruct (started s); [reflexivity|discriminate]).
+      constructor; subst s1; cbn; rewrite ?Ecc; fin; closer Sf.
+    + replace (started s1 && false && valid && negb (q_is_full s1)) with false
+        by (destruct (started s1); reflexivity).
+      constructor; subst s1; cbn; rewrite ?remove_last_app, ?Ecc; fin; closer Sf.
+  - (* Expire *)
+    cbn [step]. destruct (tmo s) eqn:Et; [exact S|..]; constructor; cbn; rewrite ?Ecc; fin; closer Sf.
+  - (* Tick *)
+    cbn [step]. set (s1 := set_now s _).
+    assert (S1 : SI s1) by (constructor; subst s1; cbn; rewrite ?Ecc; fin; closer Sf).
+    destruct (tmo s1) eqn:Et; try exact S1. destruct (deadline <=? now s1); [|exact S1].
+    destruct S1 as [Sa' Sb' Sc' Sd' Se' Sf' Sg' Sh' Si' Sj' Sk']. constructor; cbn; fin.
+  - (* Drop *)
+    cbn [step]. destruct (conn s) eqn:Ec; [|exact S]. cbv zeta.
+    change (started (emit (set_conn s false) EDrop)) with (started s). rewrite (Jc Ec).
+    set (s1 := emit (set_conn s false) EDrop).
+    assert (Hsd : stop_drain s1 = set_timer s1 TOff (match tmo s with TOff => false | _ => tok s end)).
+    { unfold stop_drain. subst s1; cbn. destruct (tmo s) eqn:Et; [rewrite (Sd (Jc Ec) eq_refl)|..]; rec_eq. }
+    rewrite Hsd. constructor; subst s1; cbn; rewrite ?Ecc; fin; closer Sf.
+  - (* Reconn *)
+    cbn [step]. destruct (negb (conn s) && started s && negb (closing s)) eqn:E; [|exact S].
+    apply andb_true_iff in E as [E _]. apply andb_true_iff in E as [_ Est]. cbv zeta.
+    destruct (negb (pend (set_paused (emit (set_conn s true) (EReconn (now s))) false) =? 0)) eqn:Ep;
+      cbn in Ep; constructor; cbn; rewrite ?Ecc; fin; closer Sf.
+  - (* NetFail *) cbn [step]. constructor; cbn; rewrite ?Ecc; fin; closer Sf.
+  - (* Stop *)
+    cbn [step]. destruct (started s && negb (closing s)) eqn:E; [|exact S].
+    apply andb_true_iff in E as [Est _].
+    constructor; cbn; rewrite ?Ecc; fin; closer Sf.
+  - (* Start *)
+    cbn [step]. destruct (negb (started s)) eqn:E; [|exact S]. apply negb_true_iff in E.
+    destruct (Sa E) as (P0 & Q0 & C0). destruct (Sg E Hsg) as (CB0 & HO0).
+    constructor; cbn; rewrite ?Ecc; fin; closer Sf.
+Qed.
+
+Ltac own_cons := repeat (constructor; [first [exact I | reflexivity]|]); assumption.
+Ltac j5 Sk := unfold pendl; cbn; rewrite ?Z.eqb_refl; cbn; rewrite ?app_nil_r; first [exact Sk | rewrite Sk; rewrite ?app_nil_r; reflexivity].
+Ltac tidy Sk := try (own_cons; fail); try (j5 Sk; fail).
+
+Lemma complete_eq b s r t : q s = r :: t -> (b = true -> readyC s = 0) ->
+  complete b s r = set_readyC (set_pend (set_q s t) (if pend s =? r then 0 else pend s)) (readyC s + 1).
+Proof.
+  intros H Hb. unfold complete. rewrite H, Z.eqb_refl. cbn.
+  destruct b; cbn; [|reflexivity]. rewrite (Hb eq_refl). cbn. reflexivity.
+Qed.
+
+Lemma pendl_0 s : pend s = 0 -> pendl s = [].
+Proof. unfold pendl. intros ->. reflexivity. Qed.
+Lemma pendl_n s : pend s <> 0 -> pendl s = [pend s].
+Proof. unfold pendl. intros H. apply Z.eqb_neq in H. rewrite H. reflexivity. Qed.
+
+Lemma SI_pump_tail s : SI s -> G1 s -> started s = true -> readyC s = 0 -> SI (pump_tail s).
+Proof.
+  intros S [J1' Jp J4'] Est Hr0.
+  pose proof S as [Sa Sb Sc Sd Se Sf Sg Sh Si Sj Sk].
+  destruct (paused s) eqn:Ep; [rewrite pump_tail_idle by auto; exact S|].
+  destruct (rdy s) eqn:Er; [|rewrite pump_tail_idle by auto; exact S].
+  destruct (q s) as [|h t] eqn:Eq; [rewrite pump_tail_idle by auto; exact S|].
+  assert (Hp0 : pend s = 0) by (apply Sb; auto).
+  assert (Hh : h <> 0) by (unfold Jpos in Jp; rewrite Eq in Jp; inversion Jp; assumption).
+  rewrite (pump_tail_eq s h t Sc Ep Er Eq Hp0 Hh Hr0 (Sd Est)).
+  rewrite (pendl_0 s Hp0) in Sk. rewrite app_nil_r in Sk.
+  destruct (conn s && negb (failw s)).
+  - constructor; cbn; rewrite ?Eq; fin.
+    + own_cons.
+    + unfold pendl; cbn. apply Z.eqb_neq in Hh. rewrite Hh, Sk. reflexivity.
+  - constructor; cbn; fin.
+    + rewrite map_app. cbn. rewrite <- app_assoc. cbn. apply Sf; auto.
+    + constructor; [exact I|own_cons].
+    + unfold pendl; cbn. rewrite Sk, app_nil_r. reflexivity.
+Qed.
+
+Lemma T_facts s : SI s -> T s <= 1 ->
+  (1 <= reqC s -> reqC s = 1 /\ readyC s = 0 /\ tok s = false) /\
+  (1 <= readyC s -> readyC s = 1 /\ reqC s = 0 /\ tok s = false) /\
+  (tok s = true -> reqC s = 0 /\ readyC s = 0).
+Proof.
+  intros S HT. destruct (si_pos _ S) as [P1 P2]. unfold T, tokz in HT.
+  destruct (tok s); repeat split; intros; try lia; try congruence.
+Qed.
+
+Lemma step_SI_int l s : wf_lab l -> G1 s -> G2 s -> SI s -> ok_at l s = true ->
+  match l with Send _ _ | Expire | Tick _ | NetFail _ | Stop | Start | Drop | Reconn => True | _ => SI (step l s) end.
+Proof.
+  intros Hw G1s [Jc Jcl Js] S Hok. pose proof G1s as [J1' Jp J4'].
+  pose proof S as [Sa Sb Sc Sd Se Sf Sg Sh Si Sj Sk].
+  unfold ok_at in Hok. apply andb_true_iff in Hok as [HT Hok]. apply Z.leb_le in HT.
+  destruct (T_facts s S HT) as (TF1 & TF2 & TF3).
+  destruct l; try exact I; cbn [is_ext] in Hok.
+  - (* Reply *)
+    apply andb_true_iff in Hok as [Hok Hcc]; apply andb_true_iff in Hok as [Hcl Hsg];
+    apply negb_true_iff in Hcl; apply negb_true_iff in Hsg;
+    destruct (concC s) as [|cc0 ccs] eqn:Ecc; try discriminate; clear Hcc; cbn [map fst app] in Sf.
+    cbn [step]. destruct (negb (r =? 0) && (pend s =? r)) eqn:E; [|exact S].
+    apply andb_true_iff in E as [E1 E2]. apply Z.eqb_eq in E2. apply negb_true_iff, Z.eqb_neq in E1.
+    assert (Hne : pend s <> 0) by congruence. destruct (J1' Hne) as [t Ht]. rewrite E2 in Ht.
+    assert (Est : started s = true).
+    { destruct (started s) eqn:X; [reflexivity|]. destruct (Sa eq_refl) as (P0 & _). congruence. }
+    rewrite (complete_eq false s r t Ht) by discriminate. unfold conclude.
+    rewrite (pendl_n s Hne) in Sk.
+    constructor; cbn; rewrite ?Ecc, ?E2, ?Z.eqb_refl; fin; tidy Sk.
+    rewrite Sf, Ht; auto.
+  - (* PumpStop *)
+    cbn [step]. destruct (started s && closing s && negb (pumpStuck s)) eqn:E; [|exact S].
+    apply andb_true_iff in E as [E _]. apply andb_true_iff in E as [Est Ecl].
+    constructor; cbn; fin; tidy Sk.
+    rewrite (Sh Ecl) in *. discriminate.
+  - (* PumpReq *)
+    cbn [step]. destruct (pump_can_run s && negb (closing s) && (1 <=? reqC s)) eqn:E; [|exact S].
+    apply andb_true_iff in E as [E E3]. apply andb_true_iff in E as [E1 E2].
+    unfold pump_can_run in E1. apply andb_true_iff in E1 as [Est _]. apply Z.leb_le in E3.
+    destruct (TF1 E3) as (R1 & R2 & R3).
+    apply SI_pump_tail; cbn; auto.
+    + constructor; cbn; fin.
+    + destruct G1s. constructor; assumption.
+  - (* PumpReady *)
+    cbn [step]. destruct (pump_can_run s && (1 <=? readyC s)) eqn:E; [|exact S].
+    apply andb_true_iff in E as [E1 E3].
+    unfold pump_can_run in E1. apply andb_true_iff in E1 as [Est _]. apply Z.leb_le in E3.
+    destruct (TF2 E3) as (R1 & R2 & R3).
+    apply SI_pump_tail; cbn; auto; [|destruct G1s; constructor; assumption|lia].
+    assert (Hp0 : pend s = 0) by (apply Sb; auto).
+    constructor; cbn; fin.
+  - (* PumpTimer *)
+    cbn [step]. destruct (pump_can_run s && tok s) eqn:E; [|exact S].
+    apply andb_true_iff in E as [E1 E3].
+    unfold pump_can_run in E1. apply andb_true_iff in E1 as [Est _].
+    destruct (TF3 E3) as (R1 & R2). cbv zeta.
+    change (pend (set_timer s (tmo s) false)) with (pend s).
+    change (q (set_timer s (tmo s) false)) with (q s).
+    destruct (negb (pend s =? 0)) eqn:Ep.
+    + apply negb_true_iff, Z.eqb_neq in Ep. destruct (J1' Ep) as [t Ht]. rewrite Ht.
+      rewrite (complete_eq true (set_timer s (tmo s) false) (pend s) t Ht) by (intros _; exact R2).
+      unfold conclude. cbn. rewrite Sc, Z.eqb_refl.
+      rewrite pump_tail_idle; cbn; auto.
+      2:{ right; left. destruct (rdy s) eqn:X; [|reflexivity]. exfalso. apply Ep. apply Sb; auto. }
+      rewrite (pendl_n s Ep) in Sk.
+      constructor; cbn; fin; tidy Sk.
+      rewrite map_app. cbn. rewrite <- app_assoc. cbn. rewrite <- Ht. apply Sf; auto.
+    + cbn. rewrite Sc. apply SI_pump_tail; cbn; auto; [|destruct G1s; constructor; assumption].
+      constructor; cbn; fin.
+  - (* Deliver *)
+    cbn [step]. destruct (handlerOn s && negb (stopSig s)) eqn:E; [|exact S].
+    apply andb_true_iff in E as [E1 E2]. apply negb_true_iff in E2.
+    destruct (concC s) as [|[r k] rest] eqn:Ecc; [exact S|].
+    assert (Est : started s = true).
+    { destruct (started s) eqn:X; [reflexivity|]. destruct (Sg eq_refl E2) as (_ & P0). congruence. }
+    assert (Ecl : closing s = false).
+    { destruct (closing s) eqn:X; [|reflexivity]. rewrite (Sh eq_refl) in E2. discriminate. }
+    pose proof (Sf Est Ecl) as Hcb. cbn in Hcb. cbn. rewrite Hcb.
+    constructor; cbn; fin; tidy Sk.
+  - (* DeliverStop *)
+    cbn [step]. destruct (handlerOn s && stopSig s) eqn:E; [|exact S].
+    apply andb_true_iff in E as [E1 E2]. apply negb_true_iff in Hok.
+    destruct (Si E2) as [X|Est]; [congruence|].
+    constructor; cbn; fin.
+Qed.
+
+Lemma step_SI l s : wf_lab l -> G1 s -> G2 s -> SI s -> ok_at l s = true -> SI (step l s).
+Proof.
+  intros Hw G1s G2s S Hok.
+  pose proof (step_SI_ext1 l s Hw G1s G2s S Hok) as A.
+  pose proof (step_SI_int l s Hw G1s G2s S Hok) as B.
+  destruct l; assumption.
+Qed.
+
+Lemma run_SI ls : forall s, Forall wf_lab ls -> G1 s -> G2 s -> SI s -> run_ok ls s = true -> SI (run ls s).
+Proof.
+  induction ls as [|l ls IH]; intros s Hw G1s G2s S Hok; [exact S|].
+  inversion Hw as [|? ? Hw1 Hw2]; subst. cbn in Hok. apply andb_true_iff in Hok as [Ho1 Ho2]. cbn.
+  apply IH; auto using step_G1, step_G2, step_SI.
+Qed.
+
+(** * S0 theorems *)
+
+Theorem S0_invariant : forall c t ls, Forall wf_lab ls -> run_ok ls (init c t) = true ->
+  SI (run ls (init c t)).
+Proof. intros. apply run_SI; auto using G1_init, G2_init, SI_init. Qed.
+
+(** C01: every callback receives the conclusion of the very request it was registered for;
+    no conclusion is left without a callback; nothing panics *)
+Theorem own_caller_S0 : forall c t ls, Forall wf_lab ls -> run_ok ls (init c t) = true ->
+  Forall own (tr (run ls (init c t))).
+Proof. intros. apply si_own. apply S0_invariant; assumption. Qed.
+
+(** C02: CALLs written = CALLs concluded ++ the outstanding one (at most one outstanding), and
+    the written sequence is a prefix of the accepted sequence (acceptance order, each at most once) *)
+Theorem one_outstanding_fifo_S0 : forall c t ls, Forall wf_lab ls -> run_ok ls (init c t) = true ->
+  let s := run ls (init c t) in
+  wrs (tr s) = conc (tr s) ++ pendl s /\ exists rest, acc (tr s) = wrs (tr s) ++ rest.
+Proof.
+  intros c t ls Hw Hok s. pose proof (S0_invariant c t ls Hw Hok) as S.
+  pose proof (run_G1 ls _ Hw (G1_init c t)) as [J1' _ J4']. fold s in S, J1', J4'.
+  split; [apply (si_j5 _ S)|]. rewrite (si_j5 _ S). unfold J4 in J4'. rewrite J4'.
+  unfold pendl. destruct (pend s =? 0) eqn:E.
+  - exists (q s). rewrite app_nil_r. reflexivity.
+  - apply Z.eqb_neq in E. destruct (J1' E) as [rest Hr]. exists rest. rewrite Hr, <- app_assoc. reflexivity.
+Qed.
+
+(** C07 (class S0): the pump never blocks for good *)
+Theorem pump_never_stuck_S0 : forall c t ls, Forall wf_lab ls -> run_ok ls (init c t) = true ->
+  pumpStuck (run ls (init c t)) = false.
+Proof. intros. apply si_ns. apply S0_invariant; assumption. Qed.
+
+(** C16: after Stop has run to its end the endpoint holds no request, no pending id and no callback *)
+Theorem stopped_is_clean_S0 : forall c t ls, Forall wf_lab ls -> run_ok ls (init c t) = true ->
+  let s := run ls (init c t) in
+  started s = false -> stopSig s = false -> pend s = 0 /\ q s = [] /\ cbq s = [] /\ closing s = false.
+Proof.
+  intros c t ls Hw Hok s H1 H2. pose proof (S0_invariant c t ls Hw Hok) as S. fold s in S.
+  destruct (si_stopped _ S H1) as (A & B & C). destruct (si_cb0 _ S H1 H2) as (D & _). auto.
+Qed.
+
+(* ------------------------------------------------------------------ *)
+(** * non-vacuity: a concrete non-trivial history is in class S0 and exercises every clause *)
+
+Definition demo_labs : list lab :=
+  [Start; Send 1 true; Send 2 true; Send 3 false; Reply 7 0; Reply 1 0; Drop; Send 4 true; Expire; Reconn;
+   NetFail true; Reply 4 1; NetFail false; Send 5 true; Reply 5 0; Stop; Start; Send 6 true; Reply 6 0].
+
+Example demo_in_S0 :
+  Forall wf_lab (expand demo_labs (init 2 0)) /\
+  run_ok (expand demo_labs (init 2 0)) (init 2 0) = true /\
+  run (expand demo_labs (init 2 0)) (init 2 0) = qrun demo_labs (init 2 0) /\
+  conc (tr (qrun [Start; Send 1 true; Send 2 true; Reply 1 0; Expire] (init 2 0))) = [1; 2].
+Proof.
+  split; [|split; [|split]].
+  - vm_compute. repeat constructor; discriminate.
+  - vm_compute. reflexivity.
+  - vm_compute. reflexivity.
+  - vm_compute. reflexivity.
+Qed.
+
+(** C02 over all schedules is false on this model of the unchanged code: a reconnection
+    (nothing outstanding) racing a send writes the same CALL twice (finding F16) *)
+Example C02_refuted_S1_F16 :
+  wrs (tr (run [Start; Reconn; Drop; Reconn; Send 7 true; PumpReq; PumpReady] (init 0 0))) = [7; 7].
+Proof. vm_compute. reflexivity. Qed.
